@@ -21,8 +21,11 @@ func genBurnHistory(r *RNG, nBlocks int) []string {
 	burn := burntypes.BurnAddress
 	now := int64(1700000100_000000000)
 	many := r.Chance(12) // a chain with two dozen denominations, of which most reach the burn address within one block
+	few := !many && r.Chance(20) // a chain with an IBC voucher denomination and one more token
 	if many {
 		add("# GENESIS %d %s %d", 4, "1000000000000", 24)
+	} else if few {
+		add("# GENESIS %d %s %d", 4, "1000000000000", 2)
 	} else {
 		add("# GENESIS %d %s", 4, "1000000000000")
 	}
@@ -30,6 +33,13 @@ func genBurnHistory(r *RNG, nBlocks int) []string {
 	vested := false
 	coinsOf := func() string {
 		amt := pick(r, []string{"1", "77", "1000", "999999", "0"})
+		if few && r.Chance(35) {
+			names := extraDenomNames(2)
+			if r.Bool() {
+				return toks(names[0]) + ":" + pick(r, []string{"1", "12", "1000"})
+			}
+			return toks(names[0]) + ":3," + toks(names[1]) + ":2," + toks(feeDenom) + ":" + amt
+		}
 		switch r.Intn(4) {
 		case 0:
 			return toks("ubtc") + ":" + pick(r, []string{"1", "5", "250"})
@@ -57,8 +67,8 @@ func genBurnHistory(r *RNG, nBlocks int) []string {
 			// 17 to 24 denominations arrive at the burn address in this block (one send, or one send per denomination)
 			k := 17 + r.Intn(8)
 			var parts []string
-			for j := 0; j < k; j++ {
-				parts = append(parts, fmt.Sprintf("%s:%d", toks(fmt.Sprintf("tok%02d", j)), 1+r.Intn(9)))
+			for _, dn := range extraDenomNames(k) {
+				parts = append(parts, fmt.Sprintf("%s:%d", toks(dn), 1+r.Intn(9)))
 			}
 			i := r.Intn(4)
 			if r.Bool() {
